@@ -6,7 +6,7 @@ split, nothing trimmed), .leading_blank, .trailing_sep, .blank_only.
 
 
 class Piece(object):
-    __slots__ = ('sid', 'elements', 'leading_blank', 'trailing_sep', 'blank_only', 'raw')
+    __slots__ = ('sid', 'elements', 'leading_blank', 'trailing_sep', 'blank_only', 'raw', 'lead')
 
     def normal(self):
         els = []
@@ -36,7 +36,9 @@ def tokenize(text):
         p = Piece()
         p.raw = raw
         p.leading_blank = line.startswith(' ')
+        p.lead = ''
         if p.leading_blank:
+            p.lead = line[:len(line) - len(line.lstrip())]
             line = line.lstrip()
         p.blank_only = (line == '')
         p.trailing_sep = (not p.blank_only) and line[-1] == ele_t
